@@ -43,6 +43,16 @@ CHECKS.update({
         text="C13_comparisons shows the table extracted from Searcher::conforms equals closed-interval semantics for all eight operators; C13_trichotomy and companions are proved for all t; literal-to-interval theorems hold for every valid date at four precisions and both separators; the calendar round trips hold for every day number. On every run files with mtimes at a-1, a, a+1, b-1, b, b+1 around each literal are queried with all eight operators.",
         note="Fixed UTC offset (TZ=UTC); tz database, DST and chrono_english free-form dates are outside the model. The clock is read by the check and passed to the model. Trusted: Coq kernel, rs2v, os.utime/os.lstat.",
         design="6 C13"),
+    "C17": dict(
+        technique="Coq proofs: fault isolation of the walker model (rows of the faulty run = rows of the fault-free run minus what lies below unlistable directories; one error per such directory) and 'no stdout write site propagates its error' over write sites re-classified from the source on every run + differential test as uid 65534 and pipe-closing at every offset",
+        text="C17_isolation is proved for every tree and set of unlistable directories over model/Walk.v; C17_pipe_never_panics quantifies over every sequence of writes and every failing write, using the classification (guarded / ignored / propagated) that tools/rs2v recomputes from searcher.rs; statuses come from main.rs. The binary is run as an unprivileged user on trees with unlistable directories and unreadable files, and with the reader closing stdout after k bytes for many k in six formats.",
+        note="Partial: which write the kernel fails depends on LineWriter buffering (the theorem covers all); permission semantics are the kernel's (the observer computes listability from mode bits for uid 65534). C17_isolation is proved for dfs; bfs rows follow by the permutation theorem only. Opening a FIFO for a content column blocks (F47, known finding) and is excluded.",
+        design="6 C17"),
+    "C19": dict(
+        technique="Coq proofs over the walker model (member rows exactly once after their archive; ordinary rows unchanged; limit gates regenerated from the source) + differential test on generated zip archives incl. corrupt ones",
+        text="C19_ordinary_rows_unchanged / C19_members_once / C19_walk hold for every tree and listing; the member-loop gate is regenerated from searcher.rs. The binary is run on trees with archives written by Python zipfile (all file types and modes, dates in every month, mixed-case extensions, corrupt and truncated archives) and compared with the model row for row and with the stored member attributes.",
+        note="Partial: the zip crate's parser is not modelled; the listing of a readable archive is an input. Trusted: Python zipfile as the oracle of what was stored.",
+        design="6 C19"),
 })
 
 ALL = ["C%02d" % i for i in range(1, 21)]
